@@ -1,6 +1,6 @@
 // C52: CORS headers only for allowed origins, Vary lists Origin.
 //
-//	cors hr=<0|1>;m=<hex method>;o=<hex origin>;a=<hex Access-Control-Request-Method>;b=<backend hdr>;r=<rules>
+//	cors hr=<0|1>;m=<hex method>;o=<hex origin>;a=<hex Access-Control-Request-Method>;b=<backend hdr>;r=<rules>;h=<hex Access-Control-Request-Headers>
 //	  hdr   = acao|acac|acam|acah|acma|aceh|vary   field = "_" (absent) or hex values joined by ","
 //	  rules = "_" or rule/rule/…   rule = hit:origins:creds:expose:methods:headers:maxage
 //
@@ -136,6 +136,26 @@ func genRule(r *vh.Rand) rule {
 	}
 	if r.Chance(1, 2) {
 		ru.expose = pickSome(r, []string{"X-B", "X-Req-Id"}, 0, 2)
+	} else if r.Chance(1, 6) {
+		ru.expose = []string{"*"}
+	}
+	if r.Chance(1, 30) { // list shapes the loader must reject
+		switch r.Intn(7) {
+		case 0:
+			ru.methods = []string{"*", "GET"}
+		case 1:
+			ru.methods = []string{"get"}
+		case 2:
+			ru.methods = []string{"GET", "FETCH"}
+		case 3:
+			ru.methods = []string{"G*T"}
+		case 4:
+			ru.header = []string{"X-*"}
+		case 5:
+			ru.header = []string{"*", "X-A"}
+		default:
+			ru.expose = []string{"X-B", "*"}
+		}
 	}
 	if r.Chance(1, 2) {
 		v := []int{-1, 0, 5, 600, 86400}[r.Intn(5)]
@@ -267,8 +287,12 @@ func gen(r *vh.Rand) string {
 	if hasRules {
 		hr = "1"
 	}
-	return fmt.Sprintf("cors hr=%s;m=%s;o=%s;a=%s;b=%s;r=%s", hr, vh.Hex([]byte(method)), vh.Hex([]byte(origin)),
-		vh.Hex([]byte(acrm)), strings.Join(bs, "|"), rs)
+	acrh := ""
+	if r.Chance(1, 2) {
+		acrh = []string{"X-A", "x-a, content-type", "Authorization", "X-Not-Allowed", "*", ""}[r.Intn(6)]
+	}
+	return fmt.Sprintf("cors hr=%s;m=%s;o=%s;a=%s;b=%s;r=%s;h=%s", hr, vh.Hex([]byte(method)), vh.Hex([]byte(origin)),
+		vh.Hex([]byte(acrm)), strings.Join(bs, "|"), rs, vh.Hex([]byte(acrh)))
 }
 
 func kv(s, k string) (string, bool) {
@@ -283,8 +307,18 @@ func exec(op string) string {
 		return "bad-op"
 	}
 	f := strings.Split(op[5:], ";")
-	if len(f) != 6 {
+	if len(f) != 6 && len(f) != 7 {
 		return "bad-op"
+	}
+	var acrh []byte
+	if len(f) == 7 {
+		hs, ok := kv(f[6], "h")
+		if !ok {
+			return "bad-op"
+		}
+		if acrh, ok = vh.UnHex(hs); !ok {
+			return "bad-op"
+		}
 	}
 	hr, ok1 := kv(f[0], "hr")
 	ms, ok2 := kv(f[1], "m")
@@ -366,6 +400,9 @@ func exec(op string) string {
 	}
 	if len(acrm) > 0 {
 		hreq.Header["Access-Control-Request-Method"] = []string{string(acrm)}
+	}
+	if len(acrh) > 0 {
+		hreq.Header["Access-Control-Request-Headers"] = []string{string(acrh)}
 	}
 	req.HttpRequest = hreq
 	kind, h, err := mod_cors.VerifRun(hr == "1", raw, req, backend)
